@@ -29,7 +29,7 @@ def monitor(rep, tier_, rng):
                 calls += 1
                 try:
                     v = sweep.call_with_timeout(thunk, 5)
-                except sweep.EXPECTED_ERRORS + (mpmath.libmp.NoConvergence, sweep.CallTimeout):
+                except (Exception, sweep.CallTimeout):
                     errors += 1; continue
                 for t in parts(v):
                     values += 1
@@ -45,7 +45,7 @@ def monitor(rep, tier_, rng):
                     calls += 1
                     try:
                         v = f()
-                    except sweep.EXPECTED_ERRORS:
+                    except Exception:
                         errors += 1; continue
                     for t in parts(v):
                         values += 1
